@@ -52,6 +52,115 @@ m("c02_sc_return_before_patch", "C02", r"C02\.SC:patch-own-jump", "an and/or nod
                         let end = self.chunk.len();""")
 m("c12_pos_col_bytes", "C12", r"C12\.POS:lexer:counters-lockstep", "the tokenizer advances the column by the char's byte length",
   "tera/src/parsing/lexer.rs", "                    _ => current_col += 1,", "                    _ => current_col += c.len_utf8(),")
+# ---------------------------------------------------------------- C03
+m("c03_scope_context_first", "C03", r"C03\.SCOPE:get_value:order", "the render context is consulted before the assignments",
+  "tera/src/vm/state.rs", """        if let Some(val) = self.set_variables.get(name) {
+            return val.clone();
+        }
+
+        if let Some(parent) = self.include_parent {
+            let val = parent.get_value(name);
+            if !val.is_undefined() {
+                return val;
+            }
+        }
+
+        if let Some(val) = self.context.data.get(name) {
+            return val.clone();
+        }
+""", """        if let Some(val) = self.context.data.get(name) {
+            return val.clone();
+        }
+
+        if let Some(val) = self.set_variables.get(name) {
+            return val.clone();
+        }
+
+        if let Some(parent) = self.include_parent {
+            let val = parent.get_value(name);
+            if !val.is_undefined() {
+                return val;
+            }
+        }
+""")
+m("c03_scope_outermost_first", "C03", r"C03\.SCOPE:get_value:innermost-loop-first", "loop frames are searched outermost first",
+  "tera/src/vm/state.rs", "        for forloop in self.for_loops.iter().rev() {\n            if let Some(v) = forloop.get(name) {",
+  "        for forloop in self.for_loops.iter() {\n            if let Some(v) = forloop.get(name) {")
+m("c03_scope_loopvar_shadows_set", "C03", r"C03\.SCOPE:frame:assignments-before-loop-variables", "the loop variable wins over an assignment of the same name made in the body",
+  "tera/src/vm/for_loop.rs", """                if !self.context.is_empty()
+                    && let Some(v) = self.context.get(name)
+                {
+                    return Some(v.clone());
+                }
+
+                if self.value_name == name {
+                    return Some(self.current_values.1.clone());
+                }
+""", """                if self.value_name == name {
+                    return Some(self.current_values.1.clone());
+                }
+
+                if !self.context.is_empty()
+                    && let Some(v) = self.context.get(name)
+                {
+                    return Some(v.clone());
+                }
+""")
+m("c03_store_outer_frame", "C03", r"C03\.STORE:store_local", "`set` inside nested loops writes into the outermost loop frame",
+  "tera/src/vm/state.rs", "        if let Some(forloop) = self.for_loops.last_mut() {\n            forloop.store(name, value);",
+  "        if let Some(forloop) = self.for_loops.first_mut() {\n            forloop.store(name, value);")
+m("c03_store_vm_swapped", "C03", r"C03\.STORE:vm:SetGlobal", "set_global stores like a plain set",
+  "tera/src/vm/interpreter.rs", """                Instruction::SetGlobal(name) => {
+                    let (val, _) = state.stack.pop();
+                    state.store_global(name, val);""", """                Instruction::SetGlobal(name) => {
+                    let (val, _) = state.stack.pop();
+                    state.store_local(name, val);""")
+m("c03_store_compiler_blockset", "C03", r"C03\.STORE:compiler:", "a set-block marked global compiles to a plain Set",
+  "tera/src/parsing/compiler.rs", """                let instr = if b.global {
+                    Instruction::SetGlobal(b.name)
+                } else {
+                    Instruction::Set(b.name)
+                };""", """                let instr = if b.global && b.name.len() < 64 {
+                    Instruction::SetGlobal(b.name)
+                } else {
+                    Instruction::Set(b.name)
+                };""")
+m("c03_iter_no_clear", "C03", r"C03\.ITER:advance:clears-iteration-assignments", "per-iteration assignments survive when there are more than 8 of them",
+  "tera/src/vm/for_loop.rs", "                if !self.context.is_empty() {\n                    self.context.clear();",
+  "                if !self.context.is_empty() && self.context.len() <= 8 {\n                    self.context.clear();")
+m("c03_iter_last_off", "C03", r"C03\.ITER:counters:last", "loop.last computed from index0",
+  "tera/src/vm/for_loop.rs", "        self.last = self.index() == self.length;", "        self.last = self.index0 == self.length;")
+m("c03_iter_initial_last", "C03", r"C03\.ITER:counters:initial", "loop.last starts false even for one-element loops",
+  "tera/src/vm/for_loop.rs", "            last: length == 1,", "            last: length == 0,")
+m("c03_loopvar_index_swapped", "C03", r"C03\.LOOPVAR:vm:__tera_loop_index0", "loop.index0 answers the 1-based index",
+  "tera/src/vm/for_loop.rs", "                Some(Value::from(self.loop_data.index0 as u64))", "                Some(Value::from(self.loop_data.index() as u64))")
+m("c03_loopvar_parser", "C03", r"C03\.LOOPVAR:parser:loop\.last", "the parser maps loop.last to the first flag",
+  "tera/src/parsing/parser.rs", '                            "last" => "__tera_loop_last",', '                            "last" => "__tera_loop_first",')
+m("c03_incl_parent_context_only", "C03", r"C03\.INCL:render_include:parent-link", "an include no longer sees the includer's assignments",
+  "tera/src/vm/interpreter.rs", "        include_state.include_parent = Some(state);\n", "        include_state.include_parent = state.include_parent;\n")
+m("c03_incl_capture_outer", "C03", r"C03\.INCL:vm:include-innermost-capture", "an include inside nested captures writes into the outermost capture",
+  "tera/src/vm/interpreter.rs", "                        let last = state.capture_buffers.len() - 1;\n                        let mut buf = std::mem::take(&mut state.capture_buffers[last]);",
+  "                        let last = 0;\n                        let mut buf = std::mem::take(&mut state.capture_buffers[last]);")
+m("c03_jump_continue_outer", "C03", r"C03\.JUMP:compiler:current-loop-is-innermost", "continue targets the outermost loop being compiled",
+  "tera/src/parsing/compiler.rs", """        self.processing_bodies
+            .iter()
+            .rev()
+            .find(|b| matches!(b, ProcessingBody::Loop(..)))""", """        self.processing_bodies
+            .iter()
+            .find(|b| matches!(b, ProcessingBody::Loop(..)))""")
+m("c03_jump_break_outer", "C03", r"C03\.JUMP:vm:break-innermost", "break leaves the outermost running loop",
+  "tera/src/vm/interpreter.rs", """                Instruction::Break => {
+                    if let Some(for_loop) = state.for_loops.last_mut() {""", """                Instruction::Break => {
+                    if let Some(for_loop) = state.for_loops.first_mut() {""")
+m("c03_jump_forelse_flag", "C03", r"C03\.JUMP:vm:for-else-flag", "the for-else flag is not negated",
+  "tera/src/vm/interpreter.rs", "                            .push(Value::from(!for_loop.iterated()), current_ip..=current_ip);",
+  "                            .push(Value::from(for_loop.iterated()), current_ip..=current_ip);")
+m("c03_jump_if_no_jump", "C03", r"C03\.JUMP:compiler:if-skeleton", "the jump over the else body is emitted after the conditional jump was patched",
+  "tera/src/parsing/compiler.rs", """                    let idx = self.chunk.add(Instruction::Jump(0), None) as usize;
+                    self.end_branch(self.chunk.len());
+                    self.processing_bodies.push(ProcessingBody::Branch(idx));""", """                    self.end_branch(self.chunk.len());
+                    let idx = self.chunk.add(Instruction::Jump(0), None) as usize;
+                    self.processing_bodies.push(ProcessingBody::Branch(idx));""")
 # ---------------------------------------------------------------- C05
 m("c05_iso_global", "C05", r"C05\.ISO:writer:global_context", "render_component gives the component the global context",
   "tera/src/vm/interpreter.rs", """        let mut state = State::new_with_chunk(&context, chunk);
